@@ -390,6 +390,24 @@ def rule_d1(ctx):
             else:
                 n_sites += 1
                 report("unclassified-consumer", "is passed to `%s`, which this rule cannot classify" % cal, t["sp"])
+        # closures run once per element in hash order by the collection itself (retain / extract_if on a HashMap / HashSet)
+        for b, t in body.calls():
+            cal = t["func"].get("declared") or mir.callee(t) or ""
+            if mir.last_seg(cal) in ("retain", "extract_if") and "std::collections::Hash" in cal and not body.blocks[b]["cleanup"]:
+                n_sites += 1
+                site = "%s over %s" % (mir.last_seg(cal), ";".join(sorted("%s%s" % (_rootname(body, r), "".join("." + x for x in p)) for r, p in body.trace_operand(t["args"][0])))[:160])
+                bad = False
+                for cl in _closure_args(ctx, body, t):
+                    cb = ctx.body(cl)
+                    eff = region_effects(ctx, cb, set(range(cb.n)), gate_reach, whole_body=True)
+                    for cls, detail, sp in eff.items:
+                        if cls == "memo":
+                            continue
+                        res.bad(Finding("D1", f["id"], "%s: closure %s" % (site, cls), "the closure given to %s runs once per entry in hash order and %s" % (mir.last_seg(cal), detail), sp),
+                                {"function": f["id"], "site": site, "verdict": cls})
+                        bad = True
+                if not bad:
+                    res.ok({"function": f["id"], "site": site, "verdict": "per-entry closure within the allowed set"})
         # Debug / Display formatting of hash collections outside panic messages
         for b, t in body.calls():
             cal = t["func"].get("declared") or ""
